@@ -26,7 +26,8 @@ Section Vec.
   Definition v2neg (a : V2) := mkV2 (- vx a) (- vy a).
   Definition v2abs (a : V2) := mkV2 (oabs O (vx a)) (oabs O (vy a)).
   Definition v2muls (a : V2) (k : T) := mkV2 (vx a * k) (vy a * k).
-  Definition v2divs (a : V2) (k : T) := mkV2 (vx a / k) (vy a / k).
+  (* Vec.DivScalar(b) is a.MulScalar(1 / b) in Go *)
+  Definition v2divs (a : V2) (k : T) := let r := o1 O / k in mkV2 (vx a * r) (vy a * r).
   Definition v2adds (a : V2) (k : T) := mkV2 (vx a + k) (vy a + k).
   Definition v2subs (a : V2) (k : T) := mkV2 (vx a - k) (vy a - k).
   Definition v2min (a b : V2) := mkV2 (omin O (vx a) (vx b)) (omin O (vy a) (vy b)).
@@ -49,7 +50,7 @@ Section Vec.
   Definition v3neg (a : V3) := mkV3 (- wx a) (- wy a) (- wz a).
   Definition v3abs (a : V3) := mkV3 (oabs O (wx a)) (oabs O (wy a)) (oabs O (wz a)).
   Definition v3muls (a : V3) (k : T) := mkV3 (wx a * k) (wy a * k) (wz a * k).
-  Definition v3divs (a : V3) (k : T) := mkV3 (wx a / k) (wy a / k) (wz a / k).
+  Definition v3divs (a : V3) (k : T) := let r := o1 O / k in mkV3 (wx a * r) (wy a * r) (wz a * r).
   Definition v3adds (a : V3) (k : T) := mkV3 (wx a + k) (wy a + k) (wz a + k).
   Definition v3subs (a : V3) (k : T) := mkV3 (wx a - k) (wy a - k) (wz a - k).
   Definition v3min (a b : V3) := mkV3 (omin O (wx a) (wx b)) (omin O (wy a) (wy b)) (omin O (wz a) (wz b)).
